@@ -1,7 +1,7 @@
 """C05-R4: panic-site inventory (see c05.py)."""
 from . import util, guards
 from .cfg import cfg
-from .common import norm
+from .common import norm, family
 from .sym import sym, short, mentions, subexprs
 from .c10 import strip_bb
 
@@ -20,7 +20,7 @@ SCAN_CALLS = (
 )
 
 RESIDUAL = {
-    ("flussab_btor2::token::positive_int::{closure#1}", "Option::unwrap"): "NonZeroU64::new(width): a leading '0' was rejected before uint, and uint rejects numbers with leading zeros, so width != 0",
+    ("flussab_btor2::token::positive_int", "Option::unwrap"): "NonZeroU64::new(width): a leading '0' was rejected before uint, and uint rejects numbers with leading zeros, so width != 0",
     ("flussab::deferred_reader::DeferredReader::advance_cold", "panic"): "the documented panic of advance(n) for n > buf_len(); callers pass scanned offsets only (checked per call site)",
     ("flussab::deferred_reader::DeferredReader::request_more", "panic"): "load-bearing assert on a broken Read implementation (not reachable with a conforming source)",
 }
@@ -123,6 +123,8 @@ def classify(facts, tn, f, bi, kind, t):
                     return "utf8-of-scanned-digits", "the bytes up to the scanned offset are ASCII digits (and '-', '{', '}')"
         if (nid, kind) in RESIDUAL:
             return "residual", RESIDUAL[(nid, kind)]
+        if (family(nid), kind) in RESIDUAL and a[0] == "call" and "NonZero" in a[2]:
+            return "residual", RESIDUAL[(family(nid), kind)]
         return None, "unwrap of %s" % sy.show(a)[:80]
     if kind == "advance":
         n = sy.operand(t["args"][1])
